@@ -83,7 +83,7 @@ Theorem lincomb_all_regimes_all_aliases :
   forall (a b : R) (i1 i2 o : nat) (s : @store (option R)) (sp : space) (d1 d2 : list R) (dold : list (option R)),
   wf_store s ->
   rd s i1 = Some (sp, cl d1) -> rd s i2 = Some (sp, cl d2) -> rd s o = Some (sp, dold) ->
-  forall g : bool,
+  forall g : small_variant,
   do_lincomb_g g (Some a) i1 (Some b) i2 o s = Ok tt (upd s o (sp, cl (rlin a b d1 d2))).
 Proof. intros a b i1 i2 o s sp d1 d2 dold W E1 E2 Eo g. exact (do_lincomb_g_clean g a b i1 i2 o s sp d1 d2 dold W E1 E2 Eo). Qed.
 Print Assumptions lincomb_all_regimes_all_aliases.
@@ -173,38 +173,38 @@ Qed.
    call runs the same body on an uninitialised element, op(x) itself returns
    whatever np.empty handed out times zero (finding C03/set-zero-reads-out). *)
 Theorem inplace_ignores_old_out_refuted :
-  if small_guarded then True else
+  match small_guarded with SvUnguarded => False | _ => True end \/
   data_after (call junkQ prox_l2_big (VElem 0%nat) (Some (VElem 1%nat)) [(sp3, q3 1 2 3); (sp3, nan3)]) 1 = Some nan3
   /\ data_after (call junkQ prox_l2_big (VElem 0%nat) (Some (VElem 1%nat)) [(sp3, q3 1 2 3); (sp3, q3 7 8 9)]) 1
      = Some (q3 0 0 0).
 Proof. exact prox_l2_old_out_survives. Qed.
 Theorem outofplace_reads_uninitialised_refuted :
-  if small_guarded then True else
+  match small_guarded with SvUnguarded => False | _ => True end \/
   match call junkQ prox_l2_big (VElem 0%nat) None [(sp3, q3 1 2 3)] with
   | Ok (VElem r) s => data_after (Ok (VElem r) s) r = Some nan3
   | _ => False
   end.
 Proof. exact prox_l2_oop_reads_uninitialised. Qed.
-(* the same witness once the source is repaired ([small_guarded] = true): zeros in both modes *)
+(* the same witness once the source is repaired ([small_guarded] <> SvUnguarded): zeros in both modes *)
 Theorem repaired_small_regime_ignores_out :
-  if small_guarded then
-    data_after (call junkQ prox_l2_big (VElem 0%nat) (Some (VElem 1%nat)) [(sp3, q3 1 2 3); (sp3, nan3)]) 1
+  match small_guarded with SvUnguarded => True | _ => False end \/
+    (data_after (call junkQ prox_l2_big (VElem 0%nat) (Some (VElem 1%nat)) [(sp3, q3 1 2 3); (sp3, nan3)]) 1
       = Some (q3 0 0 0)
     /\ match call junkQ prox_l2_big (VElem 0%nat) None [(sp3, q3 1 2 3)] with
        | Ok (VElem r) s => data_after (Ok (VElem r) s) r = Some (q3 0 0 0)
        | _ => False
-       end
-  else True.
+       end).
 Proof. exact prox_l2_repaired_ignores_out. Qed.
 (* the root cause in isolation: the unguarded y.set_zero() on fewer than 100 entries keeps a
    NaN; the variant that skips zero terms ignores the old contents at every size *)
 Theorem set_zero_keeps_nan_refuted :
   exists (s s' : @store (option R)) y sp,
-    rd s y = Some (sp, [None]) /\ do_set_zero_g false y s = Ok tt s' /\ rd s' y = Some (sp, [None]).
+    rd s y = Some (sp, [None]) /\ do_set_zero_g SvUnguarded y s = Ok tt s' /\ rd s' y = Some (sp, [None]).
 Proof. exact set_zero_small_keeps_nan. Qed.
 Theorem set_zero_guarded_ignores_old_out :
-  forall (s : @store (option R)) y sp (d : list (option R)), rd s y = Some (sp, d) ->
-  do_set_zero_g true y s = Ok tt (upd s y (sp, cl (repeat 0%R (length d)))).
+  forall (g : small_variant) (s : @store (option R)) y sp (d : list (option R)),
+  g <> SvUnguarded -> rd s y = Some (sp, d) ->
+  do_set_zero_g g y s = Ok tt (upd s y (sp, cl (repeat 0%R (length d)))).
 Proof. exact set_zero_guarded_ignores_old. Qed.
 Print Assumptions set_zero_guarded_ignores_old_out.
 (* PARTIAL: from 100 entries on the same operator ignores the old contents of out *)
